@@ -125,8 +125,11 @@ def run(ctx, rep):
     if s1:
         for b in range(len(r.blocks)):
             t = r.term(b)
-            if t.op == 'br' and len(t.ops) == 3 and r.expr(t.ops[0]) == '(block_state==%d)' % st['BLK'] and r.bdominates(b, s1[0].block):
-                okst = True
+            if t.op == 'br' and len(t.ops) == 3 and r.bdominates(b, s1[0].block):
+                from ..guards import state_test
+                t_ = state_test(r.xexpr(t.ops[0]))
+                if t_ and t_[1] == st['BLK'] and t_[2]:
+                    okst = True
     rep.check(okst, 'R-C19-3', 'repair: current-hash fetch only for BLK/REP blocks', r.file, '', function='repair', construct='fetch state guard')
     # callers pass the block's own hash holder: fetch(state, rehash, failed[j].block, buffer[failed[j].index])
     okargs = all('failed[j].block' in r.expr(c.ops[-2]) and 'buffer[failed[j].index]' in r.expr(c.ops[-1]) for c in fetches)
